@@ -21,6 +21,7 @@
 """V2 parser."""
 
 from beartype.typing import Any, Union, Callable, Tuple, List, Dict, Optional
+import copy
 import pathlib
 from typing import cast
 
@@ -519,22 +520,32 @@ class FcpV2Transformer(Transformer):
 
         if filename in self.parser_context.failed:
             # it failed once: importing it again along another path cannot end differently
-            return cast(Result[Nil, FcpError], self.parser_context.failed[filename])
+            return Err(copy.deepcopy(self.parser_context.failed[filename]))
 
         result = self._import_module(tree, filename, source)
         if result.is_err():
-            self.parser_context.failed[filename] = result
+            # a copy: the error itself collects the frames of the importers it travels through
+            self.parser_context.failed[filename] = copy.deepcopy(result.err())
         return result
 
     @catch
     def _import_module(
         self, tree: ParseTree, filename: pathlib.Path, source: str
     ) -> Result[Nil, FcpError]:
+        def imported_from_here(result: Result[Any, FcpError]) -> Result[Any, FcpError]:
+            return result.map_err(
+                lambda err: err.results_in(
+                    f"Failed to import {filename}", Token(_get_meta(tree, self))
+                )
+            )
+
         try:
             self.error_logger.add_source(str(filename), source)
             fcp_ast = fcp_parser.parse(source)
         except (UnexpectedCharacters, UnexpectedEOF) as e:
-            return _lark_error(self.error_logger, filename, source, e)
+            return imported_from_here(
+                _lark_error(self.error_logger, filename, source, e)
+            )
 
         self.parser_context.importing.append(filename)
         try:
@@ -547,21 +558,15 @@ class FcpV2Transformer(Transformer):
             )
             fcp = transformer.transform(fcp_ast)
         except VisitError as e:
-            return _visit_error(filename, e)
+            return imported_from_here(_visit_error(filename, e))
         except RecursionError:
-            return error(f"{filename.name} is nested too deeply").map_err(
-                lambda err: err.results_in(
-                    f"Failed to import {filename}", Token(_get_meta(tree, self))
-                )
+            return imported_from_here(
+                error(f"{filename.name} is nested too deeply")
             )
         finally:
             self.parser_context.importing.pop()
 
-        module = fcp.map_err(
-            lambda err: err.results_in(
-                f"Failed to import {filename}", Token(_get_meta(tree, self))
-            )
-        ).attempt()
+        module = imported_from_here(fcp).attempt()
         self.fcp.merge(module)
 
         # what the module could see is what a file importing it can see
